@@ -310,7 +310,8 @@ func c11Gen(t *rapid.T) c11Case {
 	}
 	if rapid.IntRange(0, 5).Draw(t, "markup") == 0 && !bytes.Contains(x, []byte("charset")) && !bytes.Contains(x, []byte("encoding")) && !bytes.Contains(x, []byte("<")) {
 		bom := rapid.SampledFrom([]string{"", "", "\xef\xbb\xbf"}).Draw(t, "mbom")
-		pre := rapid.SampledFrom([]string{"<?xml version=\"1.0\"?><a>", "<?xml version='1.0' standalone='yes'?>\n<doc>", "<html><body>", "<!DOCTYPE html><p>", " <html ><title>t</title>"}).Draw(t, "mpre")
+		pre := rapid.SampledFrom([]string{"<html><head><meta http-equiv=\"content-type\" content=\"text/html\"><meta name=\"description\" content=\"a page about charset=koi8-r and more\"></head><body>",
+			"<html><head><meta http-equiv=\"Content-Type\" content=\"text/html\"><meta name=\"keywords\" content=\"charset=utf-8\"><title>t</title>", "<?xml version=\"1.0\"?><a>", "<?xml version='1.0' standalone='yes'?>\n<doc>", "<html><body>", "<!DOCTYPE html><p>", " <html ><title>t</title>"}).Draw(t, "mpre")
 		mx := append([]byte(bom+pre), x...)
 		return c11Case{X: mx, Via: "detect", Limit: vfGenLimit(t, len(mx)), Markup: true}
 	}
